@@ -13,6 +13,20 @@ for name in sorted(res):
 k = sum(1 for v in res.values() if v['verdict'] == 'CAUGHT')
 table = '\n'.join(rows) + '\n\n%d of %d stored changes are caught by the check of the property they were seeded against.' % (k, len(res))
 rep = rep.replace('SEEDTABLE', table)
+import sys
+sys.path.insert(0, os.path.join(ROOT, 'gocv'))
+from claims import CLAIMS, NOT_APPLICABLE
+prow = ['| property | functions verified | obligations claimed = discharged | not decided (clauses of the statement the contracts do not carry) |', '|---|---|---|---|']
+for pid in sorted(CLAIMS):
+    try:
+        ev = json.load(open(os.path.join(ROOT, 'evidence', pid + '.json')))['coverage']
+        nf = len([f for f in ev['functions_under_contract'] if f['function'] != '@owned']); no = '%d = %d' % (ev['obligations'], ev['discharged'])
+    except Exception:
+        nf, no = '?', '?'
+    prow.append('| %s | %s | %s | %s |' % (pid, nf, no, '; '.join(CLAIMS[pid]['nd'])))
+for pid in sorted(NOT_APPLICABLE):
+    prow.append('| %s | - | not applicable | %s |' % (pid, NOT_APPLICABLE[pid]))
+rep = rep.replace('PROPTABLE', '\n'.join(prow))
 d = open(os.path.join(ROOT, 'DESIGN.md')).read()
 d = re.sub(r'\n## 0\. Build report.*?(?=\n## 1\. What is built)', '\n', d, flags=re.S)
 status = ("Status: built. Section 0 is the build report (what exists, what it found, what it cannot decide); sections 1-12 and the\n"
